@@ -15,12 +15,25 @@ func RetryMiddleware(maxRetries int, delay time.Duration) func(http.RoundTripper
 
 			// Attempt the request up to maxRetries + 1 times
 			for attempt := 0; attempt <= maxRetries; attempt++ {
+				attemptReq := req
 				if attempt > 0 {
 					log.Printf("[Retry] Attempt %d for %s %s", attempt, req.Method, req.URL.String())
 					time.Sleep(delay)
+
+					// the previous attempt has read req.Body to its end: send a copy of the request (same
+					// context, same headers) with a fresh reader over the same bytes
+					if req.Body != nil && req.Body != http.NoBody && req.GetBody != nil {
+						body, gerr := req.GetBody()
+						if gerr != nil {
+							// cannot be sent again: the outcome of the last attempt stands
+							return resp, err
+						}
+						attemptReq = req.Clone(req.Context())
+						attemptReq.Body = body
+					}
 				}
 
-				resp, err = next.RoundTrip(req)
+				resp, err = next.RoundTrip(attemptReq)
 				if err == nil && resp.StatusCode < 500 {
 					return resp, nil
 				}
